@@ -15,6 +15,7 @@ def dispatch (verb : String) (args : List String) (obs : String) : Option Reply 
   | "fd" | "f64" | "bytes" | "thr" => C18.handle verb args obs
   | "natcmp" | "natcmp3" | "argcmp" | "argsort" => C16.handle verb args obs
   | "reg" => Reg.handle args obs
+  | "ovw" => Reg.handleOvw args obs
   | _ => none
 
 def answer (line : String) : String :=
